@@ -20,6 +20,7 @@ type SolverStats struct {
 	Unknown   int
 	Errors    int
 	Fallbacks int
+	Hangs     int // queries abandoned because the solver did not answer (process killed and restarted)
 	Time      time.Duration
 	MaxQuery  time.Duration
 }
@@ -43,33 +44,65 @@ const sentinel = "@@gosym-done@@"
 
 // NewSolver starts a solver. kind is "z3", "z3-new" or "cvc5".
 func NewSolver(kind string, timeoutMs int) (*Solver, error) {
+	s := &Solver{name: kind, timeout: timeoutMs, dumpDir: os.Getenv("GOSYM_DUMP_UNKNOWN")}
+	if err := s.start(); err != nil {
+		return nil, err
+	}
+	s.Reset()
+	return s, nil
+}
+
+// start launches the solver process.
+func (s *Solver) start() error {
 	var cmd *exec.Cmd
-	switch kind {
+	switch s.name {
 	case "z3":
 		cmd = exec.Command("/usr/bin/z3", "-in", "-smt2")
 	case "z3-new":
 		cmd = exec.Command("z3-new", "-in", "-smt2")
 	case "cvc5":
 		cmd = exec.Command("cvc5", "--incremental", "--strings-exp", "--produce-models", "--lang=smt2",
-			fmt.Sprintf("--tlimit-per=%d", timeoutMs))
+			fmt.Sprintf("--tlimit-per=%d", s.timeout))
 	default:
-		return nil, fmt.Errorf("unknown solver %q", kind)
+		return fmt.Errorf("unknown solver %q", s.name)
 	}
 	in, err := cmd.StdinPipe()
 	if err != nil {
-		return nil, err
+		return err
 	}
 	out, err := cmd.StdoutPipe()
 	if err != nil {
-		return nil, err
+		return err
 	}
 	cmd.Stderr = cmd.Stdout
 	if err := cmd.Start(); err != nil {
-		return nil, err
+		return err
 	}
-	s := &Solver{name: kind, cmd: cmd, in: in, out: bufio.NewReaderSize(out, 1<<16), timeout: timeoutMs, dumpDir: os.Getenv("GOSYM_DUMP_UNKNOWN")}
-	s.Reset()
-	return s, nil
+	s.cmd, s.in, s.out, s.dead = cmd, in, bufio.NewReaderSize(out, 1<<16), false
+	return nil
+}
+
+// restart replaces a solver process that did not answer within its time
+// limit (z3's string solver does not always honour :timeout): the process is
+// killed, a new one started, and the declarations and permanent assertions
+// sent so far are replayed.
+func (s *Solver) restart() {
+	if s.cmd != nil && s.cmd.Process != nil {
+		_ = s.cmd.Process.Kill()
+		go s.cmd.Wait() //nolint:errcheck
+	}
+	if err := s.start(); err != nil {
+		s.dead = true
+		return
+	}
+	var b strings.Builder
+	if s.name != "cvc5" {
+		fmt.Fprintf(&b, "(set-option :timeout %d)\n", s.timeout)
+	} else {
+		b.WriteString("(set-logic ALL)\n")
+	}
+	b.WriteString(s.base.String())
+	s.send(b.String())
 }
 
 func (s *Solver) Close() {
@@ -246,7 +279,22 @@ func (s *Solver) Check(extra *Term, wantModel bool) (Result, map[string]*Term) {
 		fmt.Fprintf(&b, "(assert %s)\n", extra.SMT())
 	}
 	b.WriteString("(check-sat)\n")
-	out := s.roundTrip(b.String())
+	var out []string
+	hung := false
+	done := make(chan []string, 1)
+	go func(txt string) { done <- s.roundTrip(txt) }(b.String())
+	select {
+	case out = <-done:
+	case <-time.After(time.Duration(s.timeout)*time.Millisecond + 20*time.Second):
+		// no answer well past the per-query limit: kill the process (the
+		// reader then returns), start a fresh one and count the query as unknown
+		hung = true
+		_ = s.cmd.Process.Kill()
+		<-done
+		s.Stats.Hangs++
+		s.restart()
+		out = []string{"unknown"}
+	}
 	res := Unknown
 	bad := false
 	for _, l := range out {
@@ -268,7 +316,9 @@ func (s *Solver) Check(extra *Term, wantModel bool) (Result, map[string]*Term) {
 	var model map[string]*Term
 	if res == Unknown && !bad && !s.dead {
 		// second opinion from the other z3 build, on the same assertions
-		s.send("(pop 1)\n")
+		if !hung {
+			s.send("(pop 1)\n")
+		}
 		res, model = s.fallback(extra, wantModel)
 		d := time.Since(start)
 		s.Stats.Queries++
